@@ -54,6 +54,11 @@ type DB struct {
 
 	dirtyPageSet map[uint32]struct{}
 
+	// True once the header of a rollback journal has been written and until the
+	// journal is invalidated: the database writes in between belong to a
+	// rollback-journal transaction, whatever journal mode the header names.
+	journalActive bool
+
 	wal struct {
 		offset           int64                     // offset of the start of the transaction
 		byteOrder        binary.ByteOrder          // determine by WAL header magic
@@ -1143,8 +1148,10 @@ func (db *DB) WriteDatabaseAt(ctx context.Context, f *os.File, data []byte, offs
 	// Track dirty pages if we are using a rollback journal. This isn't
 	// necessary with the write-ahead log (WAL) since pages are appended
 	// instead of overwritten. We can determine the dirty set at commit-time.
+	// SQLite leaves WAL mode by rewriting page 1 under a rollback journal
+	// while the header still names WAL, so an active journal counts as well.
 	pgno := uint32(offset/int64(db.pageSize)) + 1
-	if db.Mode() == DBModeRollback {
+	if db.Mode() == DBModeRollback || db.journalActive {
 		db.dirtyPageSet[pgno] = struct{}{}
 	}
 
@@ -1298,6 +1305,11 @@ func (db *DB) WriteJournalAt(ctx context.Context, f *os.File, data []byte, offse
 		if err := db.CommitJournal(ctx, JournalModePersist); err != nil {
 			return fmt.Errorf("commit journal (PERSIST): %w", err)
 		}
+	}
+
+	// A journal header starts a rollback-journal transaction.
+	if offset == 0 && len(data) >= SQLITE_JOURNAL_HEADER_SIZE && !isByteSliceZero(data[:SQLITE_JOURNAL_HEADER_SIZE]) {
+		db.journalActive = true
 	}
 
 	// Passthrough write
@@ -2461,6 +2473,7 @@ func (db *DB) invalidateJournal(mode JournalMode) error {
 	}
 
 	db.dirtyPageSet = make(map[uint32]struct{})
+	db.journalActive = false
 
 	return nil
 }
